@@ -70,6 +70,10 @@ func (H) Generate(rng *simrt.Rand, prop, tier string) (any, simrt.Config) {
 	cfg := simrt.RandomConfig(rng)
 	next := 1
 	val := func() int { next++; return next }
+	var hot [][]string
+	for i := 2 + rng.Intn(2); i > 0; i-- {
+		hot = append(hot, genPath(rng, false, 3))
+	}
 	gen := func(mode string, n int) []Op {
 		var ops []Op
 		for i := 0; i < n; i++ {
@@ -120,11 +124,19 @@ func (H) Generate(rng *simrt.Rand, prop, tier string) (any, simrt.Config) {
 					op = Op{K: "wdel", P: genPath(rng, true, 3), V: rng.Intn(3)}
 				}
 			default: // handles
-				switch rng.Pick(30, 14, 14, 10, 8, 10, 4, 4) {
+				// a few hot paths per scenario, so that handles, updates through
+				// them and deletes naming exactly that leaf meet
+				hp := func(glob bool) []string {
+					if rng.Chance(0.6) {
+						return hot[rng.Intn(len(hot))]
+					}
+					return genPath(rng, glob, 3)
+				}
+				switch rng.Pick(30, 14, 14, 10, 8, 10, 4, 4, 4, 4) {
 				case 0:
-					op = Op{K: "add", P: genPath(rng, false, 3), V: val()}
+					op = Op{K: "add", P: hp(false), V: val()}
 				case 1:
-					op = Op{K: "getleaf", P: genPath(rng, false, 3), H: rng.Intn(3)}
+					op = Op{K: "getleaf", P: hp(false), H: rng.Intn(3)}
 				case 2:
 					op = Op{K: "hupd", H: rng.Intn(3), V: val()}
 				case 3:
@@ -132,11 +144,15 @@ func (H) Generate(rng *simrt.Rand, prop, tier string) (any, simrt.Config) {
 				case 4:
 					op = Op{K: "query", P: genPath(rng, true, 3)}
 				case 5:
-					op = Op{K: "del", P: genPath(rng, true, 3)}
+					op = Op{K: "del", P: hp(true)}
 				case 6:
 					op = Op{K: "walk"}
 				case 7:
-					op = Op{K: "glv", P: genPath(rng, false, 3)}
+					op = Op{K: "glv", P: hp(false)}
+				case 8:
+					op = Op{K: "delc", P: hp(true), V: rng.Intn(3)}
+				case 9:
+					op = Op{K: "wdel", P: hp(true), V: rng.Intn(3)}
 				}
 			}
 			ops = append(ops, op)
@@ -526,6 +542,13 @@ func apply(t *ctree.Tree, op Op, handles []*ctree.Leaf) rec {
 		})
 		sort.Ints(vals)
 		r.Out = fmt.Sprint(vals)
+		for _, v := range vals {
+			if !c(v) {
+				// the value handed to the callback is not one the condition approved
+				// (an update through a retained handle landed inside the delete)
+				r.Out = fmt.Sprintf("UNAPPROVED:%d", v)
+			}
+		}
 	case "children":
 		ch := t.Get(op.P).Children()
 		if ch == nil {
@@ -804,6 +827,9 @@ func (H) execConc(x *common.Exec, sc *Scenario) {
 	for _, r := range all {
 		if strings.HasPrefix(r.Out, "DUPLICATE") {
 			x.Violate("C10/duplicate-report", "%v", r)
+		}
+		if strings.HasPrefix(r.Out, "UNAPPROVED") {
+			x.Violate("C10/delete-removed-unapproved-value", "a conditional delete removed a value its condition did not approve: %v", r)
 		}
 	}
 	if sc.Mode == "handles" {
